@@ -1143,6 +1143,7 @@ def k_equal_isneg(base, chk):
 def k_setwide(base, chk):
     fname = base.prog.find("Element).SetWideBytes")
     k = LFK(base, chk, fname)
+    k.dom.qq_rule = True
     bs = [k.dom.input("x[%d]" % i, 0, 255) for i in range(64)]
     k.inputs["x"] = bs
 
